@@ -3,27 +3,29 @@ package main
 // Evaluation of specification expressions against a symbolic state.
 
 import (
-	"reflect"
 	"fmt"
 	"go/ast"
 	"go/constant"
 	goparser "go/parser"
+	"go/token"
 	"go/types"
+	"golang.org/x/tools/go/ssa"
+	"reflect"
 	"sort"
 	"strings"
 )
 
 type Env struct {
-	e      *Engine
-	st     *State
-	old    *State
-	fr     *Frame
-	names  map[string]Val // explicit bindings (call-site parameter names, pred params)
-	site   map[string]Val
-	result *Val
-	bound  map[string]Val
-	pkg    *types.Package
-	inOld  bool
+	e        *Engine
+	st       *State
+	old      *State
+	fr       *Frame
+	names    map[string]Val // explicit bindings (call-site parameter names, pred params)
+	site     map[string]Val
+	result   *Val
+	bound    map[string]Val
+	pkg      *types.Package
+	inOld    bool
 	callSite bool // evaluating a callee's contract at a call site: the callee's ghost state is not visible
 }
 
@@ -312,12 +314,20 @@ func (env *Env) ident(name string) Val {
 			}
 			if c, ok := fr.names[name]; ok {
 				if _, live := st.cells[c]; !live && !c.arr {
+					if v, ok := e.rangeIntAlias(st, fr, name); ok {
+						return v
+					}
 					efail("variable %q is not declared on this path", name)
 				}
 				return e.load(st, &Loc{Kind: LCell, Cell: c, Root: c.T, T: c.T})
 			}
 			if l, ok := fr.heapNames[name]; ok {
 				return e.load(st, l)
+			}
+			if _, known := fr.names[name]; !known {
+				if v, ok := e.rangeIntAlias(st, fr, name); ok {
+					return v
+				}
 			}
 			if env.inOld || len(fr.names) == 0 {
 				for i, p := range fr.fn.Params {
@@ -1078,4 +1088,37 @@ func (env *Env) tryEval(x *Expr) (v Val, err error) {
 		}
 	}()
 	return env.eval(x), nil
+}
+
+// rangeIntAlias: in `for i := range n` the variable i is declared afresh in every iteration from a hidden counter;
+// at the loop head (where invariants are evaluated) i does not exist yet and denotes that counter.
+func (e *Engine) rangeIntAlias(st *State, fr *Frame, name string) (Val, bool) {
+	for _, b := range fr.fn.Blocks {
+		for _, in := range b.Instrs {
+			a, ok := in.(*ssa.Alloc)
+			if !ok || a.Comment == "" || (a.Comment != name && e.allocName(a) != name) || a.Referrers() == nil {
+				continue
+			}
+			for _, r := range *a.Referrers() {
+				stv, ok := r.(*ssa.Store)
+				if !ok || stv.Addr != a {
+					continue
+				}
+				ld, ok := stv.Val.(*ssa.UnOp)
+				if !ok || ld.Op != token.MUL {
+					continue
+				}
+				it, ok := ld.X.(*ssa.Alloc)
+				if !ok || it.Comment != "rangeint.iter" {
+					continue
+				}
+				if c, ok := fr.allocs[it]; ok {
+					if _, live := st.cells[c]; live {
+						return e.load(st, &Loc{Kind: LCell, Cell: c, Root: c.T, T: c.T}), true
+					}
+				}
+			}
+		}
+	}
+	return Val{}, false
 }
